@@ -37,6 +37,9 @@ TOKENS = [
     "pixee:*-s*",
     "pixee:python/url-sandbox*",
     "*random",
+    # pieces that are a prefix and a suffix of a real id but would have to overlap inside it: must not match
+    "pixee:python/*python/url-sandbox",
+    "*secure-*secure-random",
 ]
 
 SYNTH = {
@@ -45,7 +48,7 @@ SYNTH = {
     "meta": [("pixee", "a.b"), ("pixee", "axb"), ("pixee", "a+b"), ("pixee", "a(b)"), ("sonar", "a.b"), ("pixee", "ab")],
 }
 SYNTH_TOKENS = {
-    "prefix": ["pixee:python/a", "pixee:python/a-b", "sonar:python/a", "pixee:python/a*", "*a", "*-b", "pixee:python/a-*c", "*", "pixee:python/zz", "*:python/a"],
+    "prefix": ["pixee:python/a", "pixee:python/a-b", "sonar:python/a", "pixee:python/a*", "*a", "*-b", "pixee:python/a-*c", "*", "pixee:python/zz", "*:python/a", "pixee:python/a-*-b", "*a-b*b-c", "*-*-*"],
     "meta": ["pixee:python/a.b", "pixee:python/a+b", "pixee:python/a(b)", "pixee:python/a.*", "*a.b", "pixee:python/a?b", "*", "pixee:python/a*b", "*(b)", "*+b"],
 }
 
